@@ -9,9 +9,9 @@ PROP = dict(
          "scripted in-harness ADNL server (one listener per connection), 2..64 concurrent callers x 1..5 calls each. "
          "client.run: client timeout 2 s, per call one of: answer at once / after <= 60 ms / twice with different "
          "payloads / unknown id first / pong + short + foreign-magic + 36-byte answer first / on the other connection / "
-         "malformed TL length first / never / far too late (the last three with a caller-side 80 ms context deadline, so that "
+         "malformed TL length first / never / far too late (the last three with a caller-side 50 ms context deadline, so that "
          "machine load cannot change the result class); result classes compared with the model's prediction. "
-         "go.client.chaos: timeout 50-300 ms, delays 0..1.5x timeout, up to 3 drops in the middle of requests, 0..2 idle "
+         "go.client.chaos: timeout 40-120 ms, delays 0..1.5x timeout, up to 3 drops in the middle of requests, 0..2 idle "
          "drops, and (slow cases) 1..2 connection attempts cut during reconnect; the recorded history (begin/return per call, "
          "query seen, every packet written, drops, re-accepted handshakes) is validated by checkHistory of the compiled model. "
          "non-trivial = distinct scenario line (seed, shape, script).",
@@ -40,22 +40,42 @@ PROP = dict(
     partial=[
         "data-race freedom: NOT a theorem. Supported only by the thorough-tier op go.client.race (harness rebuilt with -race, 40 chaos + 40 "
         "deterministic scenarios, any DATA RACE report fails); the quick tier does not cover it",
+        "wall-clock oracles are judged relative to a scheduling canary (a goroutine sleeping 5 ms in a loop): tolerance 1 s + 5 x the worst "
+        "oversleep seen during the scenario, and a scenario during which the whole process was stalled is run again (max 5 times) "
+        "instead of being judged — a stall of the machine is not a defect of the client; a late call caused by the client's own locking "
+        "does not show on the canary and still fails",
         "wall-clock statements (timeout by the deadline, reconnection within a bound, 3 s ping) are runtime facts: oracles "
         "deadline-overrun (> 1 s), not-reconnected-within-15s, client-not-usable-after-drops only; the model's timeout action is "
         "enabled at any moment",
         "goroutine count: runtime fact, oracle go.client.goroutines (300 warm-up calls, then 3000/10000 calls, growth <= 8) and registry-leak "
         "(queries empty after every scenario); the theorem no_leak_model is about the registry only",
-        "demux does not state that the returned answer is the FIRST one delivered for the id (it is in the model — checkHistory and the "
-        "duplicate scripts exercise it — but no theorem)",
         "deadlock freedom beyond reader_never_blocks (e.g. Connection.reader blocked on the unbuffered resp channel when no Client reads it) is not modelled",
-        "authentication path (authKey) not modelled; liveness observations: a stale `go reconnect()` spawned by an earlier failing Send can "
-        "tear down a freshly re-established connection (guard only tests the status) — admitted by the model (reconnectStart with spawned > 0), "
-        "seen in real histories, bounded by the number of failed sends; handshake of reconnect has no deadline",
+        "authentication path (authKey) not modelled",
+        "OBSERVATION 1 (stale reconnect) — decided: NOT a violation. A `go reconnect()` spawned by a failing Send can run after the "
+        "reconnect has completed (the guard only tests status == Connecting) and tear down the fresh connection; calls in flight on it "
+        "time out by their deadline (which the statement allows for unanswered calls) and one more reconnect follows. Only write failures "
+        "on a Connected connection spawn such goroutines and none is spawned while Connecting, so their number is bounded by the failed "
+        "sends of the burst before the first reconnect: reconnection is still bounded and later calls succeed. The model admits the "
+        "behaviour (reconnectStart with spawned > 0), it occurs in validated real histories, and every chaos scenario ends with the "
+        "oracles not-reconnected-within-15s / client-not-usable-after-drops, which pass",
+        "OBSERVATION 2 (no read deadline in the client handshake) — decided: NOT a violation of the statement as quantified. The fault "
+        "sequences of C12 are connection DROPS (mid-request, idle, during reconnect): a peer that closes during the handshake gives EOF and the "
+        "reconnect loop retries after 1 s (exercised by the slow chaos scenarios). The unbounded case needs a peer that accepts the TCP "
+        "connection and then neither answers nor closes, which no server implementing the specification does; it is fairness assumption F4 "
+        "of reconnect_bounded. It remains a robustness weakness (reconnect() then blocks in ParsePacket for ever, status stays Connecting)",
+        "OBSERVATION 3 (deaf but Connected after a parse error) — decided: NOT a violation of C12. A parse error needs a corrupted stream or "
+        "a frame outside 64..8 MiB, i.e. a C11 fault, not a drop/reorder/duplicate history of C12; the server has not closed the connection, "
+        "so 'after the server closes the connection the client reconnects' does not apply, and calls on that connection still return timeout "
+        "by their deadline. C11 only requires that the bad frame is not delivered (it is not). It remains a robustness weakness: "
+        "handleIncomingPackets closes its channel, Connection.reader returns, nothing closes the socket, status stays Connected until a Send fails",
     ],
     level="proof",
     level_text="Lean 4 theorems over a labelled transition system of the request path, for every reachable state / every enabled action "
-               "list, any number of callers and connections, unconstrained environment: demux (+ demux_own_answer, demux_not_other under "
-               "IdsDistinct), reader_never_blocks (inductive invariant: registered id => empty channel; pending send => empty channel, unique), "
+               "list, any number of callers and connections, unconstrained environment: demux, demux_first_answer (first delivered answer for the id after registration wins, "
+               "duplicate_dropped), demux_all_callers (+ demux_own_answer, demux_not_other under IdsDistinct), no_deadlock_client "
+               "(every unreturned call has an enabled own action that decreases its rank, nobody moves it backwards, a reader's channel send "
+               "never blocks, an idle reader accepts any packet), reconnect_bounded (<= 4 steps of the connection's own threads lead to a "
+               "Connected, writable, read connection — liveness under the four fairness assumptions F1-F4 stated in C12.lean) + call_can_succeed, reader_never_blocks (inductive invariant: registered id => empty channel; pending send => empty channel, unique), "
                "register_before_send, timeout_returns, no_leak_model, status_machine (+ _send_fails, _drop_reconnects), round_robin. "
                "The invariants are proved by case analysis over all 15 actions. Tie to the code: operation-order obligations regenerated "
                "from the Go source by a go/ast translator on every run, and histories of real concurrent executions (drops, reconnects, "
